@@ -68,7 +68,7 @@ func parseV(s string, p poolT) (any, string, error) {
 		}
 		for {
 			eq := strings.IndexByte(rest, '=')
-			if eq <= 0 {
+			if eq < 0 {
 				return nil, "", fmt.Errorf("object: no key in %q", rest)
 			}
 			k := rest[:eq]
